@@ -137,7 +137,15 @@ func init() {
 			model.Member{Key: []byte("l"), Val: model.Str([]byte(rv.Field(0).String()))},
 			model.Member{Key: []byte("r"), Val: model.Int(rv.Field(1).Int())})
 	}
+	// null: containers assign the zero value to an element themselves, without
+	// asking the element's state; as a struct field the state refuses. The
+	// statement leaves null open (see assign), so the models accept it as zero
+	// and a refusal is fine too.
 	poolAssign[expIntType] = func(dst reflect.Value, v model.V) error {
+		if v.K == model.VNull {
+			dst.Set(reflect.Zero(dst.Type()))
+			return nil
+		}
 		if v.K != model.VInt || !v.N.IsInt64() {
 			return errors.New("ExpInt accepts integers only")
 		}
@@ -145,6 +153,10 @@ func init() {
 		return nil
 	}
 	poolAssign[expPairType] = func(dst reflect.Value, v model.V) error {
+		if v.K == model.VNull {
+			dst.Set(reflect.Zero(dst.Type()))
+			return nil
+		}
 		if v.K != model.VObj {
 			return errors.New("ExpPair accepts objects only")
 		}
@@ -289,6 +301,13 @@ func init() {
 		return nil
 	}
 	poolAssign[uProcType] = func(dst reflect.Value, v model.V) error {
+		if v.K == model.VNull {
+			// null assigns the zero value, as everywhere (the cell stays zero
+			// and replaces the target)
+			dst.Field(0).SetInt(0)
+			dst.Field(1).SetString("")
+			return nil
+		}
 		if v.K != model.VObj {
 			return errors.New("UProc accepts objects only")
 		}
